@@ -31,10 +31,10 @@ CLAUSES = {
 
 def record(select=None, timeout=1500):
     """run the pinned suite (or the tests selected) from common.REPO with the recording plugin; -> list of (test, unit)"""
-    out = tempfile.mkdtemp(prefix='vf_suite_')
+    out = tempfile.mkdtemp(prefix='vf_suite_', dir=common.workdir())
     try:
-        env = dict(os.environ, VERIF_SUITE_TRACES=out, PYTHONPATH='/verif' + os.pathsep + os.environ.get('PYTHONPATH', ''))
-        py = '/venv/bin/python -m pytest -q -p no:cacheprovider -p vf.suiteplugin --timeout=900 %s' % (' '.join(select) if select else '')
+        env = dict(os.environ, VERIF_SUITE_TRACES=out, PYTHONPATH=common.ROOT + os.pathsep + os.environ.get('PYTHONPATH', ''))
+        py = common.PY + ' -m pytest -q -p no:cacheprovider -p vf.suiteplugin --timeout=900 %s' % (' '.join(select) if select else '')
         # a private network namespace (loopback only), as the baseline is run: the suite binds fixed ports
         inner = 'ip link set lo up 2>/dev/null; cd %s && %s > %s/log.txt 2>&1' % (common.REPO, py, out)
         cmd = ['unshare', '-rn', 'sh', '-c', inner]
